@@ -9,19 +9,19 @@ BASE = ("cd /repo && /venv/bin/python -m pytest -ra -q -p no:cacheprovider --tim
 # id -> (technique, level text, level note, design ref)
 CHECKS = {
  "C01": ("runtime monitoring: reference-model oracle (exact-rational component resolver + rounding model) over reloaded CFF drawings of generated UFOs",
-         "Exploration: thousands of generated UFOs (hostile coordinates, nested/mirrored/sheared components, explicit fractional CFF width bases in fontinfo, lib filters that must not change the drawing) compiled by the real compileOTF under every roundTolerance/cffVersion/optimizeCFF value; each reloaded glyph is compared with an independent exact-rational resolver. Held means: on all executions observed; nothing is claimed about inputs the generator never produced.",
+         "Exploration: thousands of generated UFOs (hostile coordinates, nested/mirrored/sheared components, explicit fractional CFF width bases in fontinfo, lib filters - also decompose filters restricted by include / exclude - that must not change the drawing; negative and oversized advances must be rejected) compiled by the real compileOTF under every roundTolerance/cffVersion/optimizeCFF value; each reloaded glyph is compared with an independent exact-rational resolver. Held means: on all executions observed; nothing is claimed about inputs the generator never produced.",
          "Trusts fontTools' CFF reader and RecordingPen; coordinates |v|<=16000, <=14 glyphs, depth<=5; normal form of DESIGN 4.1/4.2.",
          "DESIGN.md section 5 C01, 4.1, 4.2"),
  "C02": ("runtime monitoring: structural + segment-wise Bezier-distance oracle over reloaded glyf data of generated UFOs; maxp recomputed by own DFS",
-         "Exploration: generated UFOs compiled by the real compileTTF (12 %: through compileInterpolatableTTFs as two identical masters) under random convertCubics/reverseDirection/flattenComponents/allQuadratic/cubicConversionError (down to 0.00005)/dropImpliedOnCurves settings, with the per-glyph public.truetype.overlap flag key on a third of the fonts and cu2qu's curve_type marker in the lib of some cubic-free sources; every reloaded glyph is matched point for point (lines, quadratics, on-curve end points, direction) against the exact-rational resolver, each converted cubic is measured against its quadratic run, composites are compared with the (flattened) reference component list, maxp is recomputed.",
+         "Exploration: generated UFOs compiled by the real compileTTF (12 %: through compileInterpolatableTTFs as two identical masters) under random convertCubics/reverseDirection/flattenComponents/allQuadratic/cubicConversionError (down to 0.00005)/dropImpliedOnCurves settings, with the per-glyph public.truetype.overlap flag key on a third of the fonts and cu2qu's curve_type marker in the lib of some cubic-free sources, 30 % of the flatten cases through a FlattenComponentsFilter object that first served a sibling font; every reloaded glyph is matched point for point (lines, quadratics, on-curve end points, direction) against the exact-rational resolver, each converted cubic is measured against its quadratic run, composites are compared with the (flattened) reference component list, maxp is recomputed.",
          "Trusts fontTools' glyf reader; distance bound conversionError*upm + sqrt(1/2) + 0.07; 2x2 entries > 2 (not storable) only counted.",
          "DESIGN.md section 5 C02, 4.3"),
  "C12": ("runtime monitoring: relation between executions (one UFO compiled under every optimizeCFF x subroutinizer x cffVersion combination; drawings, advances, layout bytes compared pairwise)",
-         "Exploration: each generated UFO is compiled 12 times by the real compileOTF (1 %: ~800 glyphs sharing 230-300 curve motifs, so that compreffor fills the global subroutine index, under 4 combinations); all supported combinations must reload to the same normal-form drawing per glyph, the same advances (hmtx and, for CFF 1, the charstring's own width) and byte-identical GPOS/GDEF/GSUB; the unsupported combination must raise NotImplementedError.",
-         "Trusts fontTools' CFF/CFF2 reader; default rounding only; normal form of DESIGN 4.1 (strict differences counted).",
+         "Exploration: each generated UFO is compiled 12 times by the real compileOTF (1 %: ~800 glyphs sharing 230-300 curve motifs, so that compreffor fills the global subroutine index, under 4 combinations; 20 % of the non-integer fonts with an explicit roundTolerance of 0 / 0.25 under every combination); all supported combinations must reload to the same normal-form drawing per glyph, the same advances (hmtx and, for CFF 1, the charstring's own width) and byte-identical GPOS/GDEF/GSUB; the unsupported combination must raise NotImplementedError.",
+         "Trusts fontTools' CFF/CFF2 reader; with an explicit roundTolerance the cffsubr combinations are compared within tx's two-decimal operand noise (0.005 per coordinate), everything else exactly; normal form of DESIGN 4.1 (strict differences counted).",
          "DESIGN.md section 5 C12, 4.1"),
  "C03": ("runtime monitoring: rule oracle over reloaded glyph order / cmap of generated UFOs, plus a completely enumerated small scope of makeOfficialGlyphOrder",
-         "Exploration with an exhaustively enumerated sub-space: ~1200 random UFOs (hostile names, BMP/supplementary/duplicate code points incl. U+0000, stored order or explicit argument with duplicates/unknown names/.notdef anywhere, UVS, colour-layer fonts whose exploded alternates must stay unencoded) through compileTTF/compileOTF -> reload, judged by the order and cmap rules written from the statement; every run also enumerates all 32 name sets x 1555 order lists through the real makeOfficialGlyphOrder (99k calls).",
+         "Exploration with an exhaustively enumerated sub-space: ~1200 random UFOs (hostile names, BMP/supplementary/duplicate code points incl. U+0000, stored order or explicit argument with duplicates/unknown names/.notdef anywhere, UVS, colour-layer fonts whose exploded alternates must stay unencoded, skip lists in the lib with the argument absent / empty / non-empty) through compileTTF/compileOTF -> reload, judged by the order and cmap rules written from the statement; every run also enumerates all 32 name sets x 1555 order lists through the real makeOfficialGlyphOrder (99k calls).",
          "Trusts fontTools' cmap/maxp readers; ASCII glyph names; '.notdef' carries no code point.",
          "DESIGN.md section 5 C03"),
  "C18": ("runtime monitoring: reference oracle over reloaded GDEF classes / ligature carets / GPOS cursive records and lookup flags of generated multi-script UFOs",
@@ -29,7 +29,7 @@ CHECKS = {
          "Trusts fontTools' GDEF/GPOS readers and unicodedata; script-neutral glyphs must keep the right-to-left flag, glyphs of mixed provenance are not judged (counted).",
          "DESIGN.md section 5 C18"),
  "C20": ("runtime monitoring: reachability oracle over the reloaded GPOS ScriptList -> LangSys -> feature -> lookup -> coverage graph of generated multi-script UFOs",
-         "Exploration: 2400 generated UFOs with kerning and mark/cursive anchors, with and without languagesystem statements, 10 % as the default master of a two-master variable font whose other master has no feature text (also in the user's own order: a named language declared before its script's dflt; script chains that need repeated merging), incl. encoded source glyphs of a foreign script that are not exported (public.skipExportGlyphs) next to kerned glyphs whose Script_Extensions name that script; for every language system reaching generated kern/dist, every generated mark/mkmk/curs/abvm/blwm lookup covering a glyph of that script must be reachable too, and every language system that exposes any generated positioning feature must reach the generated kern/dist lookups acting on its script's glyphs. The known defect (a script the exported font really supports is registered only by the kern writer) is listed as a finding; any other unreachable feature is a violation.",
+         "Exploration: 2400 generated UFOs with kerning and mark/cursive anchors, with and without languagesystem statements, 10 % as the default master of a two-master variable font whose other master has no feature text (also in the user's own order: a named language declared before its script's dflt; script chains that need repeated merging), comment-only '# Automatic Code' placeholder blocks directly below the languagesystem list on 15 %, stray digits of scripts without letters in the font, incl. encoded source glyphs of a foreign script that are not exported (public.skipExportGlyphs) next to kerned glyphs whose Script_Extensions name that script; for every language system reaching generated kern/dist, every generated mark/mkmk/curs/abvm/blwm lookup covering a glyph of that script must be reachable too, and every language system that exposes any generated positioning feature must reach the generated kern/dist lookups acting on its script's glyphs. The known defect (a script the exported font really supports is registered only by the kern writer) is listed as a finding; any other unreachable feature is a violation.",
          "Trusts fontTools' GPOS reader and unicodedata script data; script membership closed over the generated GSUB rules.",
          "DESIGN.md section 5 C20, section 6"),
  "C04": ("runtime monitoring: recomputation oracle over compiled and reloaded tables (raw hmtx/vmtx decoding, own Bezier extrema), byte comparison of save/reload/save, enumerated advance sequences",
@@ -37,11 +37,11 @@ CHECKS = {
          "Trusts fontTools' readers (hmtx/vmtx also decoded from raw bytes); CFF tolerances per DESIGN 4.6 as corrected (nearest-integer bearings, outward-rounded aggregates on save); SOURCE_DATE_EPOCH pinned.",
          "DESIGN.md section 5 C04, 4.6"),
  "C11": ("runtime monitoring: relation between executions (names on / off / lib default) with per-table byte comparison, plus a naming-rule oracle written from the statement",
-         "Exploration: ~560 generated UFOs (hostile glyph names, postscriptNames maps with duplicates/empty/illegal values, ligatures mixing BMP and supplementary-plane parts, lib switches, TTF/CFF/CFF2 and a variable stratum incl. a variable font whose own default source is not the designspace default), each compiled three times by the real compile functions; every table except post/'CFF ' must be byte-identical (head checksum masked), CFF charstrings and dict values equal per glyph index, final names unique, legal and admissible under the naming rules.",
+         "Exploration: ~560 generated UFOs (hostile glyph names, postscriptNames maps with duplicates/empty/illegal values, ligatures mixing BMP and supplementary-plane parts, lib switches (ufo2ft key, Glyphs legacy key with true and false values) judged by a lib-switch oracle when the caller passes no argument, TTF/CFF/CFF2 and a variable stratum incl. a variable font whose own default source is not the designspace default), each compiled three times by the real compile functions; every table except post/'CFF ' must be byte-identical (head checksum masked), CFF charstrings and dict values equal per glyph index, final names unique, legal and admissible under the naming rules.",
          "Trusts fontTools' sfnt reader; Latin-1 feature-file-safe source names; uniqueness numbering scheme not prescribed.",
          "DESIGN.md section 5 C11"),
  "C05": ("runtime monitoring: GPOS interpreter (shaper semantics over the reloaded tables) against an independent UFO kerning lookup, per script tag, for every ordered glyph pair",
-         "Exploration: 700 generated multi-script UFOs (all four kerning precedence levels with deliberate exceptions, zero/fractional/negative values incl. exact half-step ties of both parities at quantisation 1/2/5/10, script sets that need repeated merging, missing glyphs, unknown groups, GDEF marks, languagesystems none/some/all, quantisation, both kern writers, writer objects that first served another font of other scripts, first-side classes mixing one left-to-right and one right-to-left letter); every ordered glyph pair is evaluated under every script tag by an interpreter of the compiled GPOS and compared with the UFO lookup (value, applied once, x-placement rule); three listed mechanisms are known findings, each re-exercised by a dedicated stratum.",
+         "Exploration: 700 generated multi-script UFOs (all four kerning precedence levels with deliberate exceptions, zero/fractional/negative values incl. exact half-step ties of both parities at quantisation 1/2/5/10, script sets that need repeated merging, missing glyphs, unknown groups, GDEF marks, languagesystems none/some/all, quantisation, both kern writers, writer objects that first served another font of other scripts, first-side classes mixing one left-to-right and one right-to-left letter; 8 % compiled as the default master of a two-master designspace with substitution rules); every ordered glyph pair is evaluated under every script tag by an interpreter of the compiled GPOS and compared with the UFO lookup (value, applied once, x-placement rule); three listed mechanisms are known findings, each re-exercised by a dedicated stratum.",
          "Trusts fontTools' GPOS/GDEF readers and unicodedata; shaper semantics of DESIGN section 3; quantifier of DESIGN 4.4.",
          "DESIGN.md section 5 C05, 4.4, section 6"),
  "C16": ("runtime monitoring: field-by-field reference oracle (independent fallback table) over reloaded name/OS2/hhea/head/post/CFF tables, plus an exhaustive sweep of every Unicode scalar through the PostScript-name normaliser",
@@ -49,23 +49,23 @@ CHECKS = {
          "Trusts fontTools' table readers; attributes without a destination in the listed tables are unchecked (listed in the evidence assumptions).",
          "DESIGN.md section 5 C16"),
  "C17": ("runtime monitoring: compiled feature text parsed back and compared with the user's statements (subsequence / marker-position oracle), GSUB bytes with vs without writers, writer call-order log",
-         "Exploration: 3000 generated feature files (languagesystems, classes, GSUB features, hand-written kern/mark/mkmk/curs/abvm/blwm/GDEF blocks (carets by position or by index) with the marker at top/middle/bottom/alone/mis-cased/twice, ordinary comments that merely contain the marker text) x writer lists (default, lib, explicit with ellipsis - also with one positioning writer named in front of the ellipsis and again among the defaults -, skip/append, a harness GSUB writer placed last) compiled by the real compileTTF; the debug feature file is parsed back with feaLib and every user statement must survive in order, generated rules must sit at the marker, GSUB bytes must equal the no-writer compile, GSUB writers must run first (hook on BaseFeatureWriter.write).",
+         "Exploration: 3000 generated feature files (languagesystems, classes, GSUB features, hand-written kern/mark/mkmk/curs/abvm/blwm/GDEF blocks (carets by position or by index) with the marker at top/middle/bottom/alone/mis-cased/twice or with no statement at all, ordinary comments that merely contain the marker text) x writer lists (default, lib, explicit with ellipsis - also with one positioning writer named in front of the ellipsis and again among the defaults -, skip/append, a harness GSUB writer placed last) compiled by the real compileTTF; the debug feature file is parsed back with feaLib and every user statement must survive in order, generated rules must sit at the marker, GSUB bytes must equal the no-writer compile, GSUB writers must run first (hook on BaseFeatureWriter.write).",
          "Trusts feaLib's parser/asFea round trip (checked per case) and fontTools' sfnt reader.",
          "DESIGN.md section 5 C17"),
  "C15": ("runtime monitoring: before/after snapshots of real filter applications compared through the exact-rational resolver (rendering invariance, matrix image, anchor-position closure)",
-         "Exploration: 4000 component-graph fonts (depth<=4, shared bases, arbitrary affine transforms, anchors) x the real Decompose / DecomposeTransformed / Flatten / Transformations / PropagateAnchors filter objects with include/exclude/predicate selections on the font, a glyph-set copy or a foreign dict, and the interpolatable variants of Decompose / DecomposeTransformed / Flatten applied once to 2-3 compatible masters without an instantiator; the glyphs are read back and every glyph's fully resolved contours must equal (exactly for dyadic inputs) the original's, resp. its image under the requested matrix; propagated anchors must lie where some component path puts a base anchor (and, when the composite has a non-mark component, where a base's anchor or an attaching mark's anchor lands); second application adds nothing.",
+         "Exploration: 4000 component-graph fonts (depth<=4, shared bases, arbitrary affine transforms, anchors) x the real Decompose / DecomposeTransformed / Flatten / Transformations / PropagateAnchors filter objects with include/exclude/predicate selections on the font, a glyph-set copy or a foreign dict, and the interpolatable variants of Decompose / DecomposeTransformed / Flatten applied once to 2-3 compatible masters without an instantiator; the glyphs are read back and every glyph's fully resolved contours must equal (exactly for dyadic inputs) the original's, resp. its image under the requested matrix; propagated anchors must lie where some component path puts a base anchor (and, when the composite has a non-mark component, where a base's anchor or an attaching mark's anchor lands); every anchor of a non-mark component's base must appear (plain or numbered) on an included glyph with components - mixed glyphs too - unless it had one of that name; second application adds nothing.",
          "Exact for dyadic/integer inputs, 1e-9 relative otherwise; selection heuristics of anchor propagation deliberately not re-implemented.",
          "DESIGN.md section 5 C15"),
  "C06": ("runtime monitoring: GPOS interpreter (MarkBasePos / MarkLigPos / MarkMarkPos with lookup flags and filtering sets, later lookup wins) against anchor-difference candidates computed from the UFO",
-         "Exploration: 600 generated UFOs (marks with several attaching anchors, bases, ligatures with numbered anchors and gaps, mark-to-mark anchors, fractional coordinates, Indic code points for abvm/blwm incl. a second, possibly undeclared Indic script, roles by anchors / categories / user GDEF incl. base-classed glyphs that keep a paired mark anchor, stale user-written markClass statements under the writer's own class names, groupMarkClasses, quantisation); every glyph pair (and every ligature component) is evaluated under every script tag with mark, mkmk, abvm, blwm active together; the final attachment must be one of the source-defined candidates, or absent when there is none.",
+         "Exploration: 600 generated UFOs (marks with several attaching anchors, bases, ligatures with numbered anchors and gaps and, on a quarter of them, a plain anchor at a random position among the numbered ones, mark-to-mark anchors, fractional coordinates, Indic code points for abvm/blwm incl. a second, possibly undeclared Indic script, roles by anchors / categories / user GDEF incl. base-classed glyphs that keep a paired mark anchor, stale user-written markClass statements under the writer's own class names, groupMarkClasses, quantisation); every glyph pair (and every ligature component) is evaluated under every script tag with mark, mkmk, abvm, blwm active together; the final attachment must be one of the source-defined candidates, or absent when there is none.",
          "Trusts fontTools' GPOS/GDEF readers; shaper semantics of DESIGN section 3; only the mark (and GDEF) writer runs.",
          "DESIGN.md section 5 C06, section 6"),
  "C13": ("runtime monitoring: relation between executions (with / without the skip list) over reloaded outlines, order, cmap, metrics and GPOS results evaluated by the interpreter",
-         "Exploration: 500 component-graph UFOs with kerning groups, mark anchors and categories x random skip subsets (nested chains, mirrored references, group members; category maps that name only non-exported glyphs; a decoy list in a master's own lib on the designspace paths) delivered by argument / UFO lib / both / designspace lib / the union of the master UFOs' libs (compileInterpolatableTTFs on a master list), OTF and TTF, static plus interpolatable and variable strata, plus a sparse-master stratum (leaf <- middle <- top chains whose skipped inner glyphs have non-linear sparse layer masters; optionally on two axes with sparse sources that omit the axis they leave at its default; the variable fonts compiled with and without the skip list are read back at nine axis positions); each compiled twice by the real compile functions; skipped names must be absent everywhere, the remaining glyphs' contour multisets (OTF exact, TTF within the stored-form error bound), advances, order, cmap, kerning and mark attachment must be unchanged.",
+         "Exploration: 500 component-graph UFOs with kerning groups, mark anchors and categories x random skip subsets (nested chains, mirrored references, group members; category maps that name only non-exported glyphs; a decoy list in a master's own lib on the designspace paths; a glyph that is a composite in one master and drawn in the other) delivered by argument / UFO lib / both / designspace lib / the union of the master UFOs' libs (compileInterpolatableTTFs on a master list), OTF and TTF, static plus interpolatable and variable strata, plus a sparse-master stratum (leaf <- middle <- top chains whose skipped inner glyphs have non-linear sparse layer masters; optionally on two axes with sparse sources that omit the axis they leave at its default; the variable fonts compiled with and without the skip list are read back at nine axis positions); each compiled twice by the real compile functions; skipped names must be absent everywhere, the remaining glyphs' contour multisets (OTF exact, TTF within the stored-form error bound), advances, order, cmap, kerning and mark attachment must be unchanged.",
          "Trusts fontTools' readers; TTF cases restricted to line/quadratic sources; feature text without GSUB rules.",
          "DESIGN.md section 5 C13"),
  "C07": ("runtime monitoring: deep before/after state snapshots of every source object, identity-aliasing check at working-copy creation, recording dicts (tripwires) keyed by call site, source-free failpoints (sys.monitoring) for the raising executions",
-         "Fault enumeration + exploration: every fixture under tests/data with both UFO libraries plus ~480 generated UFOs / designspaces through all nine public compile functions with option combinations and call histories (once, twice, TTF then OTF), including compiles of non-default layers (empty, all glyphs non-exported, sparse) and sparse masters whose working glyph set is empty together with filters that run master by master; late-failing inputs and InjectedFault raised at sampled ufo2ft function entries exercise the 'or raises' clause; after every call the deep snapshot of all layers, libs, info, kerning, groups, features and of the designspace must equal the one taken before; no working glyph set may share an object with a source layer; no tripwire may record a write; inplace=True runs prove the monitor sees mutations.",
+         "Fault enumeration + exploration: every fixture under tests/data with both UFO libraries plus ~480 generated UFOs / designspaces through all nine public compile functions with option combinations and call histories (once, twice, TTF then OTF), including compiles of non-default layers (empty, all glyphs non-exported, sparse) and sparse masters whose working glyph set is empty together with filters that run master by master, and families with a composite of an anchor-less composite compiled with PropagateAnchors as a PRE filter; late-failing inputs and InjectedFault raised at sampled ufo2ft function entries exercise the 'or raises' clause; after every call the deep snapshot of all layers, libs, info, kerning, groups, features and of the designspace must equal the one taken before; no working glyph set may share an object with a source layer; no tripwire may record a write; inplace=True runs prove the monitor sees mutations.",
          "Snapshot scope as listed in the evidence assumptions; failpoints sampled, not all entries; faults inside C extensions cannot be injected.",
          "DESIGN.md section 5 C07, 2.3"),
  "C14": ("runtime monitoring: contract monitor around real filter calls (pre/post snapshots of the glyph set and of the source font, returned set, reuse histories versus fresh objects)",
@@ -73,7 +73,7 @@ CHECKS = {
          "Glyph state = outline, components, anchors, metrics, unicodes, lib; over-reporting only counted.",
          "DESIGN.md section 5 C14, 2.3"),
  "C08": ("runtime monitoring: per-table sha256 digests of saved fonts compared across fresh interpreters started with different PYTHONHASHSEED values and across library / memory-vs-disk / inplace / call-history variants",
-         "Exploration: 64 cases (10 repository fixtures + generated layout-heavy UFOs incl. the groupMarkClasses option with a deliberate colouring tie, outline UFOs with lib filters incl. colliding propagated anchor names and a mark-of-marks composite whose curve component's control box exceeds its outline box, contextual anchors, generated designspaces, one case whose ftConfig option object asking for GPOS compaction is shared by every call, one with unlisted glyph names that differ in case only; SOURCE_DATE_EPOCH default / 0 / 86400 per case) each compiled in 4 fresh interpreters (PYTHONHASHSEED 0-3; thorough: 8) under {defcon, ufoLib2} x {in memory, saved and re-opened} x {first call, second call on the same objects, after another compile function, inplace=True}; all digests of one (case, function, options) must be equal, a mismatch is localised to the table. ufo2ft has no threads: hash order and call history are the only schedules.",
+         "Exploration: 64 cases (10 repository fixtures + generated layout-heavy UFOs incl. the groupMarkClasses option with a deliberate colouring tie, outline UFOs with lib filters incl. colliding propagated anchor names and a mark-of-marks composite whose curve component's control box exceeds its outline box, user cubicToQuadratic filters that remember the curve type, writer / filter objects shared by all calls of an interpreter, contextual anchors, generated designspaces (half of them with feature text in the default master only), one case whose ftConfig option object asking for GPOS compaction is shared by every call, one with unlisted glyph names that differ in case only; SOURCE_DATE_EPOCH default / 0 / 86400 per case) each compiled in 4 fresh interpreters (PYTHONHASHSEED 0-3; thorough: 8) under {defcon, ufoLib2} x {in memory, saved and re-opened} x {first call, second call on the same objects, after another compile function, inplace=True}; all digests of one (case, function, options) must be equal, a mismatch is localised to the table. ufo2ft has no threads: hash order and call history are the only schedules.",
          "SOURCE_DATE_EPOCH pinned; head checksum masked; complete public.glyphOrder except in the per-library stratum.",
          "DESIGN.md section 5 C08"),
  "C19": ("runtime monitoring: closed-form variation reference (exact rationals, independent of varLib/fontMath) against real Instantiator instances; deep before/after snapshots of all sources; repeated generation from one instantiator",
@@ -81,12 +81,12 @@ CHECKS = {
          "Closed forms cover the layouts listed in the evidence assumptions; exact ties accept both neighbours only where the statement does not fix the rounding mode.",
          "DESIGN.md section 5 C19, section 3 R-var, 4.5"),
  "C09": ("runtime monitoring: structural comparison of the produced master fonts glyph by glyph (contours, end points, on/off flags, component lists with their 2x2 parts, drawn CFF path operations), sparse-master glyph-set bounds, with a per-master control compile that counts would-be divergences",
-         "Exploration: 1200 generated compatible master families (per-master exaggerated curvature so that a per-master cu2qu diverges - measured by the control -, per-master component 2x2 differences in a single random entry, sparse layer masters - also hosted in a separate UFO - with nested composites) through compileInterpolatableTTFs / TTFsFromDS / OTFsFromDS with flattenComponents, skipExportGlyphs, custom filters (as an argument or declared in every master's lib, incl. a decompose filter that runs after the curve conversion) and optimizeCFF 1-2 on the OTF path; every glyph must have identical point structure in all masters that contain it; sparse masters (incl. sources that omit a default-valued axis) must hold '.notdef', the layer's glyphs and only glyphs tied to them by component references, and every glyph decomposed in the full masters that contains a layer glyph must be decomposed there too.",
+         "Exploration: 1200 generated compatible master families (per-master exaggerated curvature so that a per-master cu2qu diverges - measured by the control -, per-master component 2x2 differences in a single random entry, sparse layer masters - also hosted in a separate UFO, or given as a UFO of their own without layerName, or ALL masters but the default one - with nested composites) through compileInterpolatableTTFs / TTFsFromDS / OTFsFromDS with flattenComponents, skipExportGlyphs, custom filters (as an argument or declared in every master's lib, incl. a decompose filter that runs after the curve conversion) and optimizeCFF 1-2 on the OTF path; every glyph must have identical point structure in all masters that contain it; sparse masters (incl. sources that omit a default-valued axis) must hold '.notdef', the layer's glyphs and only glyphs tied to them by component references, and every glyph decomposed in the full masters that contains a layer glyph must be decomposed there too.",
          "Masters compatible by construction; placeholder glyphs of sparse masters exempt from the structure comparison.",
          "DESIGN.md section 5 C09"),
  "C10": ("runtime monitoring: the compiled variable font is evaluated at every master location by fontTools' instancer (trusted reader) and compared with the interpolatable master (outlines, advances) and - through the GPOS interpreter - with that master's kerning and anchor data",
-         "Exploration: 800 generated compatible families (1-2 axes, intermediate and sparse masters, axis maps, aligned / ragged per-master kerning with exceptions, kerning groups present in one master only, lib categories with base-mark kerning, per-master anchors) through compileVariableTTF / compileVariableCFF2 (10 %: compileVariableTTFs / CFF2s on a designspace defining the whole space plus single-axis variable fonts that use a subset of the shuffled sources; 5 %: a single variable font covering a sub-range of the axis with its own default; 20 %: the legacy kern writer selected in the masters' libs) with variableFeatures on and off, plus a pre-filter stratum (PropagateAnchors: the master compiled alone with the same filter is the reference for attachments that exist only after the filter); at each full master's location outlines and advances must be within one unit of the interpolatable master with identical point structure, kerning must equal the master's UFO lookup and mark attachment one of the master's anchor candidates (exact, +-1 / +-2 only for masters strictly inside another master's support).",
-         "Trusts fontTools.varLib.instancer; kerning judged for pairs where the static compile of the master alone already gives the UFO value (C05 covers the rest).",
+         "Exploration: 800 generated compatible families (1-2 axes, intermediate and sparse masters, axis maps, aligned / ragged per-master kerning with exceptions, kerning groups present in one master only, lib categories with base-mark kerning, per-master anchors) through compileVariableTTF / compileVariableCFF2 (10 %: compileVariableTTFs / CFF2s on a designspace defining the whole space plus single-axis variable fonts that use a subset of the shuffled sources; 5 %: a single variable font covering a sub-range of the axis with its own default; 20 %: the legacy kern writer selected in the masters' libs; default masters without kerning; 35 % of the mapped variable-feature families after an unmapped sibling family was compiled in the same process) with variableFeatures on and off, plus a pre-filter stratum (PropagateAnchors: the master compiled alone with the same filter is the reference for attachments that exist only after the filter); at each full master's location outlines and advances must be within one unit of the interpolatable master with identical point structure, kerning must equal the master's UFO lookup and mark attachment one of the master's anchor candidates (exact, +-1 / +-2 only for masters strictly inside another master's support).",
+         "Trusts fontTools.varLib.instancer (a point off by more than one unit is re-evaluated at the master's design location with avar removed - the reader's 2.14 rounding of user locations - and the avar mapping is judged separately); kerning judged for pairs where the static compile of the master alone already gives the UFO value (C05 covers the rest).",
          "DESIGN.md section 5 C10, 4.5, section 6"),
 }
 
